@@ -341,18 +341,26 @@ PROPERTIES["C13"] = {
         K("c13_step_bound_arith", module="kp", timeout=600),
         K("c13_budget_dfs_no_choices", module="kp", timeout=600),
         K("c13_reset_then_bound", module="kp", timeout=900),
+        K("c13_step_bound_reaction", module="kp", timeout=900),
     ],
     "functions_encoded": ["shuttle_schedulers::round_robin::RoundRobinScheduler::{new, new_execution}",
                           "shuttle_schedulers::replay::ReplayScheduler::new_execution",
                           "shuttle_schedulers::dfs::DfsScheduler::{new, new_execution, next_task} (choice-free body)",
                           "shuttle_engine::runtime::execution::{ExecutionState::is_step_bound_exceeded, CurrentSchedule::{init, len}}",
-                          "shuttle_engine::current::reset_step_count"],
+                          "shuttle_engine::current::reset_step_count",
+                          "shuttle_engine::runtime::execution::ExecutionState::schedule (up to the first access to the task table: "
+                          "double-scheduling guard, step-bound reaction for MaxSteps::{None, FailAfter, ContinueAfter})"],
     "bounds_text": "iteration budgets 0..=3 (symbolic) of the round-robin scheduler, the single execution of the replay "
     "scheduler, DFS budgets None / Some(0..=3) on a body without choices: new_execution returns Some exactly budget times, then "
     "None forever (5 calls); step-bound comparison: recorded schedule of 3 steps, reset point 0..=3, every usize bound; "
     "reset_step_count (real function inside an entered ExecutionState) after 0..=3 recorded steps followed by 0..=3 further "
-    "steps, task steps and random draws alike, every usize bound: the bound trips exactly when the steps since the reset reach it",
-    "outside": "what ExecutionState::schedule does when the comparison trips (FailAfter message / ContinueAfter abandonment): "
+    "steps, task steps and random draws alike, every usize bound: the bound trips exactly when the steps since the reset reach it; "
+    "reaction of ExecutionState::schedule (recorded schedule of 3 steps, reset point 0..=3, mode None / FailAfter(n) / ContinueAfter(n), "
+    "every usize n): FailAfter reached -> StepBoundExceeded error, ContinueAfter reached -> Ok with the execution marked Stopped, "
+    "otherwise the function goes on to the task table (where the solver's path ends: TaskTable::iter stubbed to 'assert the bound "
+    "was not reached, end the path')",
+    "outside": "everything in ExecutionState::schedule behind the step-bound reaction (task table walk, deadlock verdict, scheduler call) "
+    "and what run_to_completion / Runner do with the StepBoundExceeded error (panic message) and the Stopped mark: "
     "engine-level harness kani/core/src/c03.rs, validated natively, beyond the solver (DESIGN.md 2.1); budgets of the PCT and URW "
     "schedulers (hashbrown / unbounded rejection-sampling loops in `rand`; the random scheduler's budget is asserted under C10); "
     "Runner::run's loop and count; max_time",
